@@ -3,8 +3,7 @@
 
 Each change is applied to a scratch COPY of the repository (never to /repo itself), the check is pointed at the copy with
 VERIF_REPO, and the copy is removed afterwards.  Results go to seeded/RESULTS.json (caught_by / clauses / missed_by) and into
-each meta.json under "confirmed_by_verif".  usage: tools_seeded_all.py [--only ID ...] [--extra]   (--extra: also the checks
-listed under also_run in RESULTS.json)
+each meta.json under "confirmed_by_verif".  usage: tools_seeded_all.py [--no-record] [--checks 'C01 C02'] [--only ID ...]   (--only last)
 """
 import json
 import os
@@ -43,6 +42,10 @@ def run_one(sid, checks):
 def main():
     args = sys.argv[1:]
     only = None
+    record = '--no-record' not in args
+    forced = None
+    if '--checks' in args:
+        forced = args[args.index('--checks') + 1].split()
     if '--only' in args:
         only = set(args[args.index('--only') + 1:])
     path = os.path.join(HERE, 'seeded', 'RESULTS.json')
@@ -56,8 +59,12 @@ def main():
         meta = json.load(open(meta_p))
         prop = meta.get('property') or meta.get('breaks_property') or sid.split('-')[0]
         entry = by_id.setdefault(sid, {'id': sid, 'property': prop})
-        checks = [prop] + [c for c in entry.get('also_run', []) if c != prop]
+        checks = forced or ([prop] + [c for c in entry.get('also_run', []) if c != prop])
         res = run_one(sid, checks)
+        if not record:
+            for c in checks:
+                print(sid, c, 'VIOLATION' if res.get(c, {}).get('violation') else 'no violation', res.get(c, {}).get('clauses'), res.get(c, {}).get('summary') if 'error' not in res else res)
+            continue
         if 'error' in res:
             print(sid, res['error'])
             entry['error'] = res['error']
